@@ -551,6 +551,18 @@ static void monitors(const desc_t *d, const scn_t *s) {
             snprintf(what, sizeof what, "%s: %s (%s)", d->name, rule, obs);
             witness(d, s, obs); report("C05", key, what, g_wit);
         }
+        /* the handler of the right kind: mem*_s / wmem*_s report to the memory handler, everything else to the string handler (C13: a thread's
+           or the process' handler "of the same kind") */
+        if (hc >= 1 && (want("C05") || want("C13"))) {
+            int expect_kind = (!strncmp(d->name, "mem", 3) || !strncmp(d->name, "wmem", 4)) ? 'm' : 's';
+            for (int i = 0; i < hc && i < HLOG; i++) if (g_h.kind[i] != expect_kind) {
+                snprintf(key, sizeof key, "%s|R8-handler-of-the-other-kind-invoked|%s|%s", d->name, errname(g_h.code[i]), bosname(s->bos));
+                snprintf(obs, sizeof obs, "ret=%s, the %s handler was invoked with %s (%.60s)", errname(C.ret), g_h.kind[i] == 'm' ? "memory" : "string", errname(g_h.code[i]), g_h.msg[i]);
+                snprintf(what, sizeof what, "%s reports a violation to the constraint handler of the other kind: %s", d->name, obs);
+                witness(d, s, obs); if (want("C05")) report("C05", key, what, g_wit); if (want("C13")) report("C13", key, what, g_wit);
+                break;
+            }
+        }
         if (s->untruth && want("C05")) {
             /* no fault: check nothing was written either */
             const uint8_t *wh; uint8_t ov, nv; extent_t e0[1]; e0[0].p = C.out; e0[0].n = sizeof(errno_t);
@@ -821,7 +833,7 @@ static void gen_main(int fi, visit_fn visit) {
     for (int dnull = 0; dnull < 2; dnull++)
     for (int dm = 0; dm < 4; dm++)            /* 0: zero, 1: valid(8), 2: limit, 3: limit+1 */
     for (int snull = 0; snull < 2; snull++)
-    for (int sl = 0; sl < 4; sl++)            /* 0: zero 1: valid(3) 2: limit+1 3: > srcbos / > dmax */
+    for (int sl = 0; sl < 5; sl++)            /* 0: zero 1: valid(3) 2: limit+1 3: > srcbos / > dmax 4: > srcbos but <= dmax */
     for (int bos = 0; bos < 2; bos++) {
         if (!has_src && snull) continue;
         if (!has_slen && sl != 1) continue;
@@ -836,10 +848,10 @@ static void gen_main(int fi, visit_fn visit) {
         if (dm == 3 && !bos && !dnull && has_slen && sl == 0) continue;   /* would need a real object of limit+1 elements */
         s.dkind = (d->fl & F_DESTSTR) ? 1 : 0; s.dlen = 2;
         s.sstr = 3; s.sterm = 1;
-        s.slen = !has_slen ? 0 : sl == 0 ? 0 : sl == 1 ? 3 * ew / d->sunit : sl == 2 ? d->slimit + 1 : 12 * ew / d->sunit;
+        s.slen = !has_slen ? 0 : sl == 0 ? 0 : sl == 1 ? 3 * ew / d->sunit : sl == 2 ? d->slimit + 1 : sl == 3 ? 12 * ew / d->sunit : 6 * ew / d->sunit;
         size_src(d, &s);
         if (sl == 2 && has_src) { if (d->slimit * (size_t)d->sunit > SLOT_BYTES || 1) { s.sobj = 4 * ew; s.sstr = 3; s.sterm = 1; if (!snull && !bos && !s.untruth && !dnull && dm != 0 && dm != 3) s.untruth = 2; } }
-        if (sl == 3 && has_src) { s.sobj = 4 * ew; s.sstr = 3; s.sterm = 1; }   /* slen (12) > object (4 elements, terminated) */
+        if (sl >= 3 && has_src) { s.sobj = 4 * ew; s.sstr = 3; s.sterm = 1; }   /* slen (12 or 6) > object (4 elements, terminated) */
         emit_case(d, &s, visit);
     }
     /* ---------- part 3: random extras (thorough): larger sizes, all alphabets ---------- */
